@@ -76,13 +76,21 @@ def new_arm(cfg_path, fetch=True):
                 return self.opcode
             return super().fetch_instruction()
     arm = ArmUnderTest(cfg_path)
+    instrument(arm)
+    return arm
+
+
+def instrument(arm):
+    """observe which exception-entry function a step calls (instance-level wrappers; no source hooks).
+    Must be re-applied to a deep copy of an instance (closures are copied by reference)."""
     arm._taken = []
     regs = arm.registers
     for meth, name in _OUTCOME.items():
+        regs.__dict__.pop(meth, None)
         orig = getattr(regs, meth)
 
-        def wrapper(*a, _orig=orig, _name=name, **kw):
-            arm._taken.append(_name)
+        def wrapper(*a, _orig=orig, _name=name, _arm=arm, **kw):
+            _arm._taken.append(_name)
             return _orig(*a, **kw)
         setattr(regs, meth, wrapper)
     return arm
